@@ -29,6 +29,10 @@ func (x *world) syncPoint(label string) bool {
 		return !x.violated
 	}
 	synced := func() bool {
+		if x.client.RescanActive() {
+			x.client.StepRescan(0)
+			return false
+		}
 		if x.client.Pending() > 0 {
 			x.client.Deliver(0)
 			return false
